@@ -192,7 +192,7 @@ add('C10', 'exploration',
     '(polled after every step in half of the histories, only at the end in the others, because reading them triggers cleanup). '
     'Held/violated on those executions only.',
     'Only valid traffic besides the over-limit opening itself; each SETTINGS frame of the endpoint carries only MAX_CONCURRENT_STREAMS, '
-    'so ACK-to-frame matching (C11) is unambiguous; the two push-activation mechanisms are known findings.')
+    'so ACK-to-frame matching (C11) is unambiguous; the two push-activation mechanisms were known findings until the repair 06ab64d.')
 
 add('C25', 'exploration',
     'runtime monitoring: setting-by-setting view comparison + behavioural probes on both real endpoints after an h2c upgrade, over an exhaustive settings grid',
